@@ -721,6 +721,20 @@ func c05Run(occFull, occRed [][2]int) func(c *core.Ctx) {
 								"deliveries": want.Deliveries, "terminal": want.Terminal})
 						}
 					}
+					// a line of nothing but blanks is a line like any other, not an empty line to be skipped: at
+					// the end of the input it must have the effect of a line no declaration knows (terminal
+					// result and number of deliveries; the line itself carries no serial)
+					if (pl.driver == "csv2" || pl.driver == "fixedlength2") && len(names) < pl.maxLen {
+						withX := runFlat(mk, flatInput(pl.driver, mkUnits(append(append([]string{}, names...), "X")), 0), nil)
+						withWS := runFlat(mk, flatInput(pl.driver, units, 0)+"   \n", nil)
+						c.Count("transitions", 2)
+						c.Count("blank_padded_line_runs", 1)
+						if withX.Terminal != withWS.Terminal || len(withX.Deliveries) != len(withWS.Deliveries) {
+							c.Violation("line-of-blanks-not-treated-as-a-line:"+pl.driver,
+								fmt.Sprintf("hierarchy %s\nunits %v followed by a line of three spaces:\n%s\n-- followed by an undeclared unit X instead:\n%s", ref.Describe(work), names, withWS, withX),
+								c05Case{Driver: pl.driver, Hier: ref.Describe(work), Decls: toJSONDecls(decls), Units: append(append([]string{}, names...), " ")}, nil)
+						}
+					}
 					// target xpath filter: for every unit k, reject the target instances containing it; matching,
 					// terminal result and trees must be those of the unfiltered run, minus the rejected deliveries
 					if (pl.driver == "hier" || pl.driver == "edi") && len(want.Deliveries) > 0 {
